@@ -215,7 +215,8 @@ pub fn generate(r_f: usize, r_p: usize, candidate: usize, partial_sbox_index: us
 /// Parameters the repository states: R_F = 8, R_P = 60, first Cauchy candidate, S-box on the
 /// last cell in partial rounds.
 pub fn params_repo_stated() -> Params {
-    generate(R_F, R_P, 0, T - 1)
+    static CACHE: std::sync::OnceLock<Params> = std::sync::OnceLock::new();
+    CACHE.get_or_init(|| generate(R_F, R_P, 0, T - 1)).clone()
 }
 
 /// Fallback: a plain permutation over given constant tables.
